@@ -105,6 +105,8 @@ func (c *BaseTableMetaCache) refresh(ctx context.Context) {
 		if err != nil {
 			return
 		}
+		// the connection goes back to the pool when the refresh is over
+		defer releaseConn(conn)
 		v, err := c.trigger.LoadAll(ctx, c.cfg.DBName, conn, tables...)
 		if err != nil {
 			return
@@ -131,6 +133,16 @@ func (c *BaseTableMetaCache) refresh(ctx context.Context) {
 	for range ticker.C {
 		f()
 	}
+}
+
+// releaseConn gives a connection taken with db.Conn back to its pool. A *sql.Conn that never came from a pool
+// (a zero value) has nothing to give back; closing it must not take the refresh goroutine down.
+func releaseConn(conn *sql.Conn) {
+	if conn == nil {
+		return
+	}
+	defer func() { _ = recover() }()
+	_ = conn.Close()
 }
 
 // scanExpire
